@@ -992,3 +992,17 @@ class P(Prop):
             p[rng.randrange(2)] += rng.choice([-0.5, 0.5, 1, -1])
             c["feats"] = fs
             yield c
+
+
+# ---- tie to the source by translation (tools/py2lean.py -> lean/TracklibVerif/Gen/Geometry.lean, regenerated on every run)
+P.tie_modules = ["TracklibVerif.Tie.C08"]
+P.theorems = P.theorems + [
+    ("TracklibVerif.Tie.C08", "TV.Tie.C08.tie_cartesienne", "the Lean translation of the CURRENT source of geometry.cartesienne equals the model's cartesienne on every segment list"),
+    ("TracklibVerif.Tie.C08", "TV.Tie.C08.tie_eval", "the translation of the CURRENT source of geometry.__eval equals the model's evalLine"),
+    ("TracklibVerif.Tie.C08", "TV.Tie.C08.tie_isSegmentIntersects", "the translation of the CURRENT source of geometry.isSegmentIntersects equals the model's straddle test on all pairs of segments"),
+    ("TracklibVerif.Tie.C08", "TV.Tie.C08.tie_getCell", "the translation of the CURRENT source of SpatialIndex.__getCell equals the model's getCell (cell sizes != 0)"),
+    ("TracklibVerif.Tie.C08", "TV.Tie.C08.tie_getCell_ok", "whenever the translated __getCell returns, it returns the model's value (no hypothesis on the cell sizes)"),
+    ("TracklibVerif.Tie.C08", "TV.Tie.C08.tie_groundDistanceToUnits", "the translation of the CURRENT source of SpatialIndex.groundDistanceToUnits equals the model's, ZeroDivisionError included (the model's == 0 test is Python's)"),
+    ("TracklibVerif.Tie.C08", "TV.Tie.C08.tie_getCellR", "the translation of the CURRENT source of SpatialIndex.__getCell equals the model's executed form getCellR, ZeroDivisionError included (the model's == 0 test is Python's)"),
+    ("TracklibVerif.Tie.C08", "TV.Tie.C08.tie_isSegmentIntersects_short1", "the translated isSegmentIntersects raises IndexError when the first list has fewer than four numbers"),
+]
